@@ -243,9 +243,20 @@ class DI:
 			raise TypeError(f'Merging not allowed. not related. self: {self.__class__}, other: {other.__class__}')
 
 		di = self._clone()
-		di.__instances = {**di.__instances, **other.__instances}
-		di.__injectors = {**di.__injectors, **other.__injectors}
+		# XXX マージ対象が登録しているシンボルは、レシーバー側のファクトリー/インスタンスを引き継がない
+		di.__instances = {**{symbol: instance for symbol, instance in di.__instances.items() if not other._binded(symbol)}, **other.__instances}
+		di.__injectors = {**{symbol: injector for symbol, injector in di.__injectors.items() if not other._binded(symbol)}, **other.__injectors}
 		return di
+
+	def _binded(self, symbol: type) -> bool:
+		"""シンボルが登録済みか判定。combineの中のみ使用
+
+		Args:
+			symbol: シンボル
+		Returns:
+			True = 登録済み
+		"""
+		return self.__inner_binded(symbol)
 
 
 class LazyDI(DI):
@@ -380,6 +391,17 @@ class LazyDI(DI):
 		"""
 		injector = self.__definitions[symbol_path]
 		self.bind(load_module_path(symbol_path), injector if callable(injector) else load_module_path(injector))
+
+	@override
+	def _binded(self, symbol: type) -> bool:
+		"""シンボルが登録済みか判定。combineの中のみ使用
+
+		Args:
+			symbol: シンボル
+		Returns:
+			True = 登録済み(未解決の遅延定義を含む)
+		"""
+		return self.can_resolve(symbol)
 
 	@override
 	def _clone(self: Self) -> Self:
